@@ -11,11 +11,13 @@ EXPLANATION = (
     "appender is entered only while the writer lock is held; the dependency takes append_lock before the map "
     "lock in both append and resize; every public read API of Store reaches no write/file/map/shared-memory effect; a query opens exactly one read transaction, outside every loop, and nothing it reaches opens another. "
     "Linearizability, exactly-one-winner and reader-prefix consistency themselves are not decided; LMDB MVCC is trusted.")
+EXPLANATION += " Also decided: the LMDB environment is not opened with NO_LOCK (the single-writer mutex and the reader table every clause above relies on stay in force)."
 ASSUMPTIONS = ["LMDB allows one write transaction at a time and gives readers a snapshot (MVCC)"]
 
 
 def run(ctx):
     s = S(ctx)
+    storage.env_flags(ctx, s)
     for root in ("pocket_db::Store::store_event", "pocket_db::Store::remove_event"):
         txn.single_write_txn_first(ctx, s, root)
         txn.effects_use_callers_txn(ctx, s, root)
